@@ -122,11 +122,15 @@ var extraStructs = []kernelSpec{{"x/bet/types", "Constraints", ""}, {"x/mint/typ
 // A stateful kernel: a function that reads and writes module state through a keeper.  The state it touches is a record (emitted as
 // S_<name>) and every keeper / context method it may call is mapped to an operation on that record; anything else fails the translation.
 type stateOp struct {
-	kind  string // "get": the field; "set": field := last argument; "add": every field += last argument (infallible, returns nil); "nop"
+	// "get": the field; "gets": the tuple of the fields; "set": field := last argument; "add": every field += last argument (infallible,
+	// returns nil); "nop"; "move": field[0] -= last argument, field[1] += last argument, an error when field[0] is smaller (bank SendCoins)
+	kind  string
 	field []string
+	args  []string // "move": the names the address arguments must have in the source (from, to)
 }
 type stateField struct{ name, typ string } // typ: a Gallina type ("Z", "G_Minter", ...)
 type statefulSpec struct {
+	recv      string // "" for a function; "Keeper" for a keeper method
 	pkg, name string // function
 	state     string // Gallina record name suffix
 	fields    []stateField
@@ -140,10 +144,28 @@ var statefulList = []statefulSpec{{
 	fields:    []stateField{{"Minter", "G_Minter"}, {"Params", "G_Params"}, {"Supply", "Z"}, {"Minted", "Z"}, {"Height", "Z"}},
 	keeperPkg: "x/mint/keeper",
 	ops: map[string]stateOp{
-		"GetMinter": {"get", []string{"Minter"}}, "GetParams": {"get", []string{"Params"}}, "TokenSupply": {"get", []string{"Supply"}},
-		"SetMinter": {"set", []string{"Minter"}}, "MintCoins": {"add", []string{"Supply", "Minted"}}, "AddCollectedFees": {"nop", nil},
+		"GetMinter": {kind: "get", field: []string{"Minter"}}, "GetParams": {kind: "get", field: []string{"Params"}},
+		"TokenSupply": {kind: "get", field: []string{"Supply"}}, "SetMinter": {kind: "set", field: []string{"Minter"}},
+		"MintCoins": {kind: "add", field: []string{"Supply", "Minted"}}, "AddCollectedFees": {kind: "nop"},
 	},
-	ctxOps: map[string]stateOp{"BlockHeight": {"get", []string{"Height"}}},
+	ctxOps: map[string]stateOp{"BlockHeight": {kind: "get", field: []string{"Height"}}},
+}, {
+	recv: "Keeper", pkg: "x/subaccount/keeper", name: "withdrawUnlocked", state: "subwd",
+	fields:    []stateField{{"Summary", "G_AccountSummary"}, {"Unlocked", "Z"}, {"SubBal", "Z"}, {"OwnerBal", "Z"}},
+	keeperPkg: "x/subaccount/keeper",
+	ops: map[string]stateOp{
+		"getSubaccountSummary": {kind: "gets", field: []string{"Summary", "Unlocked", "SubBal"}},
+		"SetAccountSummary":    {kind: "set", field: []string{"Summary"}},
+		"bankKeeper.SendCoins": {kind: "move", field: []string{"SubBal", "OwnerBal"}, args: []string{"subAccAddr", "ownerAddr"}},
+	},
+}, {
+	recv: "Keeper", pkg: "x/subaccount/keeper", name: "withdrawLockedAndUnlocked", state: "subwd",
+	keeperPkg: "x/subaccount/keeper",
+	ops: map[string]stateOp{
+		"getSubaccountSummary": {kind: "gets", field: []string{"Summary", "Unlocked", "SubBal"}},
+		"SetAccountSummary":    {kind: "set", field: []string{"Summary"}},
+		"bankKeeper.SendCoins": {kind: "move", field: []string{"SubBal", "OwnerBal"}, args: []string{"subAccAddr", "ownerAddr"}},
+	},
 }}
 
 type ktrans struct {
@@ -154,6 +176,7 @@ type ktrans struct {
 	gname   map[*types.TypeName]string // whitelisted struct -> its Gallina name (the Go name, prefixed by the module on a clash)
 	fn      map[*types.Func]string     // whitelisted function / method -> the Gallina name of its translation
 	assume  map[*types.Func]bool       // functions taken to succeed (not modelled)
+	mutFn   map[*types.Func]bool       // whitelisted methods that assign to their receiver (their translation returns the new receiver)
 	out     strings.Builder
 	errs    []string
 }
@@ -221,6 +244,12 @@ func isCtx(t types.Type) bool {
 	return ok && n.Obj().Pkg() != nil && n.Obj().Pkg().Path() == "github.com/cosmos/cosmos-sdk/types" && n.Obj().Name() == "Context"
 }
 
+// isAddr: sdk.AccAddress (only passed on to keeper operations, which are mapped by the names of these arguments)
+func isAddr(t types.Type) bool {
+	n, ok := t.(*types.Named)
+	return ok && n.Obj().Pkg() != nil && n.Obj().Pkg().Path() == "github.com/cosmos/cosmos-sdk/types" && n.Obj().Name() == "AccAddress"
+}
+
 func isBigInt(t types.Type) bool {
 	if p, ok := t.(*types.Pointer); ok {
 		t = p.Elem()
@@ -283,6 +312,7 @@ type fctx struct {
 	loop     []string        // inside a range loop: the tuple of variables carried by the fold (innermost last)
 	state    *statefulSpec   // stateful kernel: the state record is the "receiver" g_st
 	nilErr   map[string]bool // error variables known to be nil (result of an infallible state operation)
+	nonNil   map[string]bool // error variables known to be non-nil (the failing branch of a fallible state operation)
 }
 
 // stateCall: a keeper / context method of a stateful kernel; returns (expression, statement-effect, ok)
@@ -295,11 +325,51 @@ func (c *fctx) stateOpOf(f *ast.SelectorExpr) (stateOp, bool) {
 		op, ok := c.state.ctxOps[f.Sel.Name]
 		return op, ok
 	}
-	if n, ok := t.(*types.Named); ok && n.Obj().Name() == "Keeper" && n.Obj().Pkg() != nil && n.Obj().Pkg().Path() == repoModule+"/"+c.state.keeperPkg {
+	isKeeper := func(t types.Type) bool {
+		n, ok := t.(*types.Named)
+		return ok && n.Obj().Name() == "Keeper" && n.Obj().Pkg() != nil && n.Obj().Pkg().Path() == repoModule+"/"+c.state.keeperPkg
+	}
+	if isKeeper(t) {
 		op, ok := c.state.ops[f.Sel.Name]
 		return op, ok
 	}
+	if inner, ok := f.X.(*ast.SelectorExpr); ok && isKeeper(c.info.TypeOf(inner.X)) {
+		op, ok := c.state.ops[inner.Sel.Name+"."+f.Sel.Name]
+		return op, ok
+	}
 	return stateOp{}, false
+}
+
+// stateArgs: the non-context arguments of a state operation; for "move" the address arguments must be the named variables
+func (c *fctx) stateArgs(op stateOp, call *ast.CallExpr) []string {
+	var args []string
+	var names []string
+	for _, a := range call.Args {
+		if isCtx(c.info.TypeOf(a)) {
+			continue
+		}
+		if gt, _ := c.k.galType(c.info.TypeOf(a)); gt == "" || isAddr(c.info.TypeOf(a)) {
+			if id, ok := a.(*ast.Ident); ok {
+				names = append(names, id.Name)
+			} else {
+				names = append(names, "?")
+			}
+			continue
+		}
+		args = append(args, c.expr(a))
+	}
+	if op.kind == "move" && strings.Join(names, ",") != strings.Join(op.args, ",") {
+		c.fail("state operation called with (%s), expected (%s)", strings.Join(names, ","), strings.Join(op.args, ","))
+	}
+	return args
+}
+
+// moveOp: the guarded transfer; okB / errB are the continuations with the error nil / non-nil
+func (c *fctx) moveOp(op stateOp, args []string, okB, errB string) string {
+	S := "S_" + c.state.state
+	amt := args[len(args)-1]
+	return fmt.Sprintf("(if (%s_%s g_st <? %s) then %s else let g_st := set_%s_%s g_st (%s_%s g_st - %s) in\n  let g_st := set_%s_%s g_st (%s_%s g_st + %s) in\n  %s)",
+		S, op.field[0], amt, errB, S, op.field[0], S, op.field[0], amt, S, op.field[1], S, op.field[1], amt, okB)
 }
 
 // applyStateOp: the let-bindings performing a set / add / nop operation, followed by rest
@@ -604,6 +674,13 @@ func (c *fctx) call(e *ast.CallExpr) string {
 		if op, ok := c.stateOpOf(f); ok {
 			if op.kind == "get" {
 				return fmt.Sprintf("(S_%s_%s g_st)", c.state.state, op.field[0])
+			}
+			if op.kind == "gets" {
+				var parts []string
+				for _, fl := range op.field {
+					parts = append(parts, fmt.Sprintf("S_%s_%s g_st", c.state.state, fl))
+				}
+				return "(" + strings.Join(parts, ", ") + ")"
 			}
 			return c.fail("state operation %s.%s used as a value", op.kind, f.Sel.Name)
 		}
@@ -1063,8 +1140,20 @@ func (c *fctx) stmts(list []ast.Stmt) string {
 				if id, ok := as.Lhs[0].(*ast.Ident); ok {
 					if be, ok := s.Cond.(*ast.BinaryExpr); ok && be.Op == token.NEQ && isNilIdent(be.Y) {
 						if x, ok := be.X.(*ast.Ident); ok && x.Name == id.Name && c.info.TypeOf(as.Rhs[0]).String() == "error" {
-							if _, isCall := as.Rhs[0].(*ast.CallExpr); isCall {
+							if call, isCall := as.Rhs[0].(*ast.CallExpr); isCall {
 								thenB := c.stmts(append(append([]ast.Stmt{}, s.Body.List...), list[1:]...))
+								if f, ok := call.Fun.(*ast.SelectorExpr); ok {
+									// the fallible transfer of a stateful kernel
+									if op, ok := c.stateOpOf(f); ok && op.kind == "move" {
+										return c.moveOp(op, c.stateArgs(op, call), rest(), thenB)
+									}
+									// a method that assigns to its receiver (a local variable): the translation returns the new value or None
+									if fn, ok := c.info.Uses[f.Sel].(*types.Func); ok && c.k.mutFn[fn] {
+										if rid, ok := f.X.(*ast.Ident); ok {
+											return fmt.Sprintf("match %s with\n  | Some %s => %s\n  | None => %s\n  end", c.expr(call), ident(rid.Name), rest(), thenB)
+										}
+									}
+								}
 								return fmt.Sprintf("(if negb %s then %s else %s)", c.expr(as.Rhs[0]), thenB, rest())
 							}
 						}
@@ -1080,6 +1169,9 @@ func (c *fctx) stmts(list []ast.Stmt) string {
 					return c.stmts(append([]ast.Stmt{s.Else}, list[1:]...))
 				}
 				return rest()
+			}
+			if id, ok := be.X.(*ast.Ident); ok && c.nonNil[id.Name] {
+				return c.stmts(append(append([]ast.Stmt{}, s.Body.List...), list[1:]...))
 			}
 		}
 		// an if whose body only consists of statements that are not modelled (telemetry, events): dropped with its condition
@@ -1180,19 +1272,60 @@ func (c *fctx) stmts(list []ast.Stmt) string {
 				}
 			}
 		}
+		// a, b, c := k.Op(...) where Op reads several fields
+		if len(s.Lhs) >= 2 && len(s.Rhs) == 1 {
+			if call, ok := s.Rhs[0].(*ast.CallExpr); ok {
+				if f, ok := call.Fun.(*ast.SelectorExpr); ok {
+					if op, ok := c.stateOpOf(f); ok && op.kind == "gets" && len(op.field) == len(s.Lhs) {
+						var pat []string
+						for _, l := range s.Lhs {
+							id, ok := l.(*ast.Ident)
+							if !ok {
+								return c.fail("multiple assignment target")
+							}
+							if id.Name == "_" {
+								pat = append(pat, "_")
+							} else {
+								pat = append(pat, ident(id.Name))
+							}
+						}
+						return fmt.Sprintf("let '(%s) := %s in\n  %s", strings.Join(pat, ", "), c.expr(call), rest())
+					}
+				}
+			}
+		}
+		// err := k.Op(...) where Op is the fallible transfer: both continuations
+		if len(s.Lhs) == 1 && len(s.Rhs) == 1 {
+			if call, ok := s.Rhs[0].(*ast.CallExpr); ok {
+				if f, ok := call.Fun.(*ast.SelectorExpr); ok {
+					if op, ok := c.stateOpOf(f); ok && op.kind == "move" {
+						if id, ok := s.Lhs[0].(*ast.Ident); ok {
+							args := c.stateArgs(op, call)
+							if c.nilErr == nil {
+								c.nilErr = map[string]bool{}
+							}
+							if c.nonNil == nil {
+								c.nonNil = map[string]bool{}
+							}
+							c.nilErr[id.Name] = true
+							okB := rest()
+							delete(c.nilErr, id.Name)
+							c.nonNil[id.Name] = true
+							errB := rest()
+							delete(c.nonNil, id.Name)
+							return c.moveOp(op, args, okB, errB)
+						}
+					}
+				}
+			}
+		}
 		// err := k.Op(...) / err = k.Op(...) where Op is an infallible state operation: perform it, remember that err is nil
 		if len(s.Lhs) == 1 && len(s.Rhs) == 1 {
 			if call, ok := s.Rhs[0].(*ast.CallExpr); ok {
 				if f, ok := call.Fun.(*ast.SelectorExpr); ok {
 					if op, ok := c.stateOpOf(f); ok && (op.kind == "add" || op.kind == "nop" || op.kind == "set") {
 						if id, ok := s.Lhs[0].(*ast.Ident); ok && c.info.TypeOf(s.Rhs[0]).String() == "error" {
-							var args []string
-							for _, a := range call.Args {
-								if isCtx(c.info.TypeOf(a)) {
-									continue
-								}
-								args = append(args, c.expr(a))
-							}
+							args := c.stateArgs(op, call)
 							if c.nilErr == nil {
 								c.nilErr = map[string]bool{}
 							}
@@ -1252,14 +1385,7 @@ func (c *fctx) stmts(list []ast.Stmt) string {
 			}
 			if f, ok := call.Fun.(*ast.SelectorExpr); ok {
 				if op, ok := c.stateOpOf(f); ok && op.kind != "get" {
-					var args []string
-					for _, a := range call.Args {
-						if isCtx(c.info.TypeOf(a)) {
-							continue
-						}
-						args = append(args, c.expr(a))
-					}
-					return c.applyStateOp(op, args, rest())
+					return c.applyStateOp(op, c.stateArgs(op, call), rest())
 				}
 			}
 			if id, ok := call.Fun.(*ast.Ident); ok && id.Name == "panic" {
@@ -1311,7 +1437,7 @@ func assignsReceiver(body *ast.BlockStmt, recv string, mutMethods map[string]boo
 
 func analyseKernels(w *world) string {
 	k := &ktrans{w: w, structs: map[string]*types.Named{}, spec: map[string]bool{}, gname: map[*types.TypeName]string{},
-		fn: map[*types.Func]string{}, assume: map[*types.Func]bool{}}
+		fn: map[*types.Func]string{}, assume: map[*types.Func]bool{}, mutFn: map[*types.Func]bool{}}
 	type item struct {
 		spec  kernelSpec
 		fn    *types.Func
@@ -1461,6 +1587,11 @@ func analyseKernels(w *world) string {
 			}
 		}
 	}
+	for _, it := range items {
+		if it.fn != nil && mut[it.spec.recv+"."+it.spec.name] {
+			k.mutFn[it.fn] = true
+		}
+	}
 	// order: callees before callers (simple: emit in whitelist order, which lists callees first; setMaxLoss before SetCurrentRound)
 	for _, it := range items {
 		gname := it.gname
@@ -1539,31 +1670,45 @@ func analyseKernels(w *world) string {
 		fmt.Fprintf(b, "(* %s %s *)\nDefinition %s %s :=\n  %s.\n\n", w.relFile(d.Pos()), it.spec.name, gname, strings.Join(params, " "), body)
 	}
 	// stateful kernels
+	stateEmitted := map[string]bool{}
 	for i := range statefulList {
 		sp := &statefulList[i]
 		S := "S_" + sp.state
-		var fs, names []string
-		for _, f := range sp.fields {
-			fs = append(fs, fmt.Sprintf("%s_%s : %s", S, f.name, f.typ))
-			names = append(names, f.name)
-		}
-		fmt.Fprintf(b, "(* the state %s.%s reads and writes through its keeper and context *)\nRecord %s := { %s }.\n", sp.pkg, sp.name, S, strings.Join(fs, "; "))
-		for _, fn := range names {
-			var parts []string
-			for _, g := range names {
-				if g == fn {
-					parts = append(parts, fmt.Sprintf("%s_%s := v", S, g))
-				} else {
-					parts = append(parts, fmt.Sprintf("%s_%s := %s_%s r", S, g, S, g))
-				}
+		if !stateEmitted[S] {
+			stateEmitted[S] = true
+			var fs, names []string
+			for _, f := range sp.fields {
+				fs = append(fs, fmt.Sprintf("%s_%s : %s", S, f.name, f.typ))
+				names = append(names, f.name)
 			}
-			fmt.Fprintf(b, "Definition set_%s_%s (r : %s) (v : _) : %s := {| %s |}.\n", S, fn, S, S, strings.Join(parts, "; "))
+			fmt.Fprintf(b, "(* the state %s.%s reads and writes through its keeper and context *)\nRecord %s := { %s }.\n", sp.pkg, sp.name, S, strings.Join(fs, "; "))
+			for _, fn := range names {
+				var parts []string
+				for _, g := range names {
+					if g == fn {
+						parts = append(parts, fmt.Sprintf("%s_%s := v", S, g))
+					} else {
+						parts = append(parts, fmt.Sprintf("%s_%s := %s_%s r", S, g, S, g))
+					}
+				}
+				fmt.Fprintf(b, "Definition set_%s_%s (r : %s) (v : _) : %s := {| %s |}.\n", S, fn, S, S, strings.Join(parts, "; "))
+			}
 		}
 		gname := fmt.Sprintf("K_%s_%s", sp.state, sp.name)
 		p := w.all[repoModule+"/"+sp.pkg]
 		var fn *types.Func
-		if p != nil {
+		if p != nil && sp.recv == "" {
 			fn, _ = p.Types.Scope().Lookup(sp.name).(*types.Func)
+		} else if p != nil {
+			if obj := p.Types.Scope().Lookup(sp.recv); obj != nil {
+				if named, ok := obj.Type().(*types.Named); ok {
+					for j := 0; j < named.NumMethods(); j++ {
+						if named.Method(j).Name() == sp.name {
+							fn = named.Method(j)
+						}
+					}
+				}
+			}
 		}
 		if fn == nil || w.decls[fn] == nil {
 			k.errs = append(k.errs, "stateful function not found: "+sp.name)
@@ -1572,8 +1717,23 @@ func analyseKernels(w *world) string {
 		}
 		fd := w.decls[fn]
 		c := &fctx{k: k, info: fd.pkg.TypesInfo, pkg: fd.pkg, recvName: "st", mutating: true, results: "none", state: sp}
-		if fn.Type().(*types.Signature).Results().Len() != 0 {
-			c.fail("a stateful kernel must not return a value")
+		sig := fn.Type().(*types.Signature)
+		switch {
+		case sig.Results().Len() == 0:
+		case sig.Results().Len() == 1 && sig.Results().At(0).Type().String() == "error":
+			c.results = "err"
+		default:
+			c.fail("a stateful kernel returns nothing or an error")
+		}
+		params := []string{fmt.Sprintf("(g_st : %s)", S)}
+		for j := 0; j < sig.Params().Len(); j++ {
+			pv := sig.Params().At(j)
+			if isCtx(pv.Type()) {
+				continue
+			}
+			if gt, _ := k.galType(pv.Type()); gt != "" && !isAddr(pv.Type()) {
+				params = append(params, fmt.Sprintf("(%s : %s)", ident(pv.Name()), gt))
+			}
 		}
 		body := c.stmts(fd.decl.Body.List)
 		pos := w.fset.Position(fd.decl.Pos())
@@ -1582,7 +1742,7 @@ func analyseKernels(w *world) string {
 			fmt.Fprintf(b, "(* %s (%s:%d): UNTRANSLATABLE: %s *)\nDefinition %s : unit := tt.\n\n", gname, w.relFile(fd.decl.Pos()), pos.Line, c.bad, gname)
 			continue
 		}
-		fmt.Fprintf(b, "(* %s %s *)\nDefinition %s (g_st : %s) : %s :=\n  %s.\n\n", w.relFile(fd.decl.Pos()), sp.name, gname, S, S, body)
+		fmt.Fprintf(b, "(* %s %s *)\nDefinition %s %s :=\n  %s.\n\n", w.relFile(fd.decl.Pos()), sp.name, gname, strings.Join(params, " "), body)
 	}
 	sort.Strings(k.errs)
 	for _, e := range k.errs {
